@@ -116,6 +116,33 @@ def run(p):
             one(p, client, other, ft, tt, vals)
             one(p, client, ep, ft, tt, vals)
             p.stats.add('sequence:same-numbers-both-endpoints')
+    # requests that differ from the previous one in ONE value only — by the sign of a zero, by one unit in the last place, by the angle
+    # type: each is answered for its own arguments (equal-comparing keys such as 0.0 / -0.0 must not share an answer)
+    for _ in range(p.n(150, 4000)):
+        ep = rng.choice(['vincinv', 'vincdir'])
+        vals = [float(v) for v in (gens.g_vincinv(rng) if ep == 'vincinv' else gens.g_vincdir(rng))[:4]]
+        vals[0] = -abs(vals[0]) if rng.random() < 0.5 else vals[0]
+        i = rng.choice(ANGLE_IN[ep])
+        kind = rng.choice(['zero-sign', 'zero-sign', 'meridian-zero-sign', 'ulp'])
+        a, b = list(vals), list(vals)
+        if kind == 'zero-sign':
+            a[i], b[i] = 0.0, -0.0
+        elif kind == 'meridian-zero-sign':
+            if ep == 'vincinv':      # a line along the Greenwich meridian, the second longitude +0 / -0
+                a[1], a[3], b[1], b[3] = 0.0, 0.0, 0.0, -0.0
+                a[2] = b[2] = max(-89.0, min(89.0, a[0] + rng.choice([-1, 1]) * rng.uniform(1, 40)))
+            else:                    # a long line due north / south, azimuth +0 / -0
+                a[2], b[2] = 0.0, -0.0
+                a[3] = b[3] = rng.uniform(1e6, 1.9e7)
+        else:
+            b[i] = math.nextafter(a[i], math.inf)
+        if rng.random() < 0.5:
+            a, b = b, a
+        p.stats.add('sequence:one-value-changed:' + kind)
+        one(p, client, ep, 'dd', rng.choice(TYPES), a)
+        one(p, client, ep, 'dd', 'dd', b)
+        one(p, client, ep, 'dd', 'dd', a)
+        one(p, client, ep, 'dd', 'dd', b)
     # index: requested repeatedly, from the same and from fresh clients, interleaved with the geodesic calls above —
     # it must list every endpoint EVERY time (state shared between requests would show on the later ones)
     rules = sorted(x.rule for x in app.url_map.iter_rules() if x.endpoint != 'static')
